@@ -160,7 +160,15 @@ class C15(Prop):
 
     def model_requests(self, case, obs):
         from fractions import Fraction
-        if "err" in obs or case["scale"] not in self.CONST or int(np.prod(case["shape"])) > 120:
+        if "err" in obs or int(np.prod(case["shape"])) > 120:
+            return []
+        if case["scale"] == "doublemad":
+            q = lambda v: (lambda f: f"{f.numerator}/{f.denominator}")(Fraction(float(v)))   # noqa: E731
+            x = make(case)
+            rows, cols = (1, x.shape[0]) if x.ndim == 1 else x.shape
+            ax = "n" if case["axis"] == "None" else (("1" if x.ndim == 1 else str(case["axis"])))
+            return [f"C15 dmad {q(math.sqrt(2 / math.pi))} {rows} {cols} {ax} {' '.join(q(v) for v in x.ravel())}"]
+        if case["scale"] not in self.CONST:
             return []
         q = lambda v: (lambda f: f"{f.numerator}/{f.denominator}")(Fraction(float(v)))   # noqa: E731
         x = make(case)
@@ -174,9 +182,12 @@ class C15(Prop):
         from fractions import Fraction
         if not answers:
             return None
-        t = answers[0].split()
+        gen = answers[0].split(" | gen ")[1] if " | gen " in answers[0] else None
+        t = answers[0].split(" | gen ")[0].split()
         if t[0] != "ok":
             return f"model {answers[0][:40]}"
+        if gen is not None and gen != "ok same":
+            return f"{case['scale']} axis={case['axis']}: the estimator translated from core/stats.py differs from the hand model ({gen})"
         want = [float(Fraction(v)) for v in t[1:]]
         if case["scale"] == "std":
             want = [math.sqrt(v) for v in want]
